@@ -55,6 +55,8 @@ class FakePort:
         return ev[1].encode("ascii") + b"\r\n"
     def close(self):
         self.closed = True
+        if self.close_raises == "os":       # an unplugged device: the operating system refuses the close with a plain OSError
+            raise OSError(5, "Input/output error (injected fault on close)")
         if self.close_raises:               # a device that has dropped off the bus: the close itself fails (no script event is consumed)
             raise serial.SerialException("injected fault on close")
     def reset_input_buffer(self):
